@@ -691,6 +691,25 @@ def check_c14(tier, seed, chk):
 SORTS = [("--sort", "kind"), ("--sort", "name"), ("--sort", "location"), ("--sortr", "kind"), ("--sortr", "name"), ("--sortr", "location")]
 
 
+def args_evaluations(run):
+    """bench id -> number of times its `args = ...` expression was evaluated in this process."""
+    evals = {}
+    for rec in run.log:
+        if rec[0] == "ARGS":
+            evals[rec[1]] = evals.get(rec[1], 0) + 1
+    return evals
+
+
+def check_args_once(res, sig, desc, run):
+    """The argument list is evaluated once per process and shared by all generic instantiations."""
+    bad = {k: v for k, v in args_evaluations(run).items() if v != 1}
+    if bad:
+        violation(res, dict(sig, **{"class": "args-evaluated-more-than-once"}),
+                  "%s: an `args` expression was evaluated more than once in one process (bench id -> evaluations): %s" % (desc, dict(sorted(bad.items())[:6])), run)
+        return False
+    return True
+
+
 def check_c17(tier, seed, chk):
     binary, model = ensure_built(tier, chk)
     res = new_result("zoo-C17", tier)
@@ -708,6 +727,8 @@ def check_c17(tier, seed, chk):
     generic_or_args = [c for c in cases if c["arg"] is not None or c["type"] or c["const"]]
     for cse, r in pmap(alone, generic_or_args):
         count_run(res, r, len(r.log))
+        if not check_args_once(res, {"check": "case-alone", "generic": bool(cse["type"] or cse["const"])}, "--test --exact %r" % cse["path"], r):
+            continue
         want = expected_records(model, [cse])
         got = observed_records(r)
         if want != got:
@@ -757,6 +778,8 @@ def check_c17(tier, seed, chk):
     for (b, sub, sort, argv, keep_cases), r in pmap(fam_run, jobs):
         count_run(res, r, len(r.log))
         sigb = {"check": "family-run", "args_kind": b["args_kind"], "subset": sub[0] if sub else "all", "sort": "%s %s" % sort}
+        if not check_args_once(res, sigb, " ".join(argv), r):
+            continue
         want = expected_records(model, keep_cases)
         got = observed_records(r)
         if want != got:
